@@ -228,7 +228,9 @@ def run_titles(cases, stats):
     for i, c in enumerate(cases):
         t = c['title']
         q = "'" + t.replace("'", "''") + "'"
-        sheets = [('Main', {'A1': f'={q}!B2+1', 'A2': f'=SUM({q}!A1:B2)', 'A3': 5}), (t, {'A1': 1, 'B2': 41, 'B1': t})]
+        # the title is also planted as a text constant - unless it starts with '=' (openpyxl would store a formula)
+        b1 = 'txt' if t.startswith('=') else t
+        sheets = [('Main', {'A1': f'={q}!B2+1', 'A2': f'=SUM({q}!A1:B2)', 'A3': 5}), (t, {'A1': 1, 'B2': 41, 'B1': b1})]
         base = [('Main', {'A1': "='ab'!B2+1", 'A2': "=SUM('ab'!A1:B2)", 'A3': 5}), ('ab', {'A1': 1, 'B2': 41, 'B1': 'ab'})]
         stats['nontrivial'] += 1
         for safety in (False, True):
@@ -257,7 +259,8 @@ def run_titles(cases, stats):
             ex = D.new_executor(cls)
             inst = ex.get_executed_class()
             outs = [D.eval_cell(ex, 0, 0, 0), D.eval_cell(ex, 0, 0, 1), D.eval_cell(ex, 1, 1, 0)]
-            if list(inst.get_titles()) != ['Main', t] or outs[0] != ('VALUE', 42) or outs[1] != ('VALUE', 42) or outs[2] != ('VALUE', t):
+            b1_ok = outs[2] == ('VALUE', b1)
+            if list(inst.get_titles()) != ['Main', t] or outs[0] != ('VALUE', 42) or outs[1] != ('VALUE', 42) or not b1_ok:
                 vio.append({'i': i, 'desc': {'clause': 'round_trip', 'position': 'title', 'safety': safety, 'chars': chars_of(t),
                                              'outcome': 'VALUE_MISMATCH'}, 'expected': [['Main', t], 42, 42, t],
                             'observed': [list(inst.get_titles()), [list(o) for o in outs]]})
